@@ -18,7 +18,7 @@ def one(d):
         m.pop('why_not_caught', None)
     json.dump(m, open(p, 'w'), indent=1)
     return os.path.basename(d), m['caught_by_own_property'], m['caught_by']
-dirs = sorted(glob.glob('/verif/seeded/*'))
+dirs = sorted(d for d in glob.glob('/verif/seeded/*') if not sys.argv[1:] or any(d.endswith(x) or os.path.basename(d)[3:] == x for x in sys.argv[1:]))
 with ThreadPoolExecutor(7) as ex:
     res = list(ex.map(one, dirs))
 own = sum(1 for r in res if r[1])
